@@ -1149,7 +1149,9 @@ as its previous station when it has heard everything up to the request (`hrdy`).
 exactly one poll and goes to `ActiveIdle`, where it stays quiet; the requester's slot time never runs out; it
 consumes the reply exactly when it is complete, in whatever pieces it arrives, no later than
 `r + 2·⌈66 bit⌉ + bits 33 + 3P`, and ADOPTS the station: in its ring view the polled address is active and is the
-next station (`HQ3.last`), its state is `PassToken` (token holder: it will pass the token to the new station after the
+next station, and — the requester's view having been the one-station ring (`HQ0.view`) — its view is now the ring view
+of the TWO-station ring (`RingView M' aL` for the ascending list `M'` of the two addresses; `HQ3.last`, via
+`AbstractRing.viewOk_setNext`); its state is `PassToken` (token holder: it will pass the token to the new station after the
 synchronisation pause) resp. `ClaimToken(Scan)`.  The token pass to the new station and its first visit are not
 part of this theorem. -/
 theorem gap_request_answered_ready (cfg : Cfg) (hok : cfg.Ok) (G : Nat) (hG : cfg.slot + 3 * cfg.P ≤ G) (x y : Nat)
@@ -1166,7 +1168,7 @@ theorem gap_request_answered_ready (cfg : Cfg) (hok : cfg.Ok) (G : Nat) (hG : cf
 /-! Non-vacuity: the request of station 3 to address 5 started at 1000 µs and has been registered by the listener at
 1150 µs (phase `HQ1`); both polled every 100 µs; the reply is sent at 1250 µs and consumed at 1400 µs. -/
 open PV.C13 in
-def sQ3 : Station := { (Station.new pR3) with online := true, st := .claimToken (.scanAwait 5), gap := .doPoll 5, lastBusActivity := some 1132 }
+def sQ3 : Station := { (Station.new pR3) with online := true, st := .claimToken (.scanAwait 5), gap := .doPoll 5, lastBusActivity := some 1132, ring := (TokenRing.new 3).claimToken }
 open PV.C13 in
 def sQ5 : Station := { (Station.new pR5) with online := true, st := .listenToken (some 3) 0, lastBusActivity := some 1150 }
 def nsQ3 : NetStation := { s := sQ3, apps := [], online := true }
@@ -1177,7 +1179,7 @@ open PV.C13 in
 theorem hq1Q : HQ1 cfgR netQ 0 1 nsQ3 nsQ5 1000 1150 0 1150 := by
   have hinv3 : Inv sQ3 [] := by
     have h := inv_new pR3 [] (by decide) (by decide) (by intro s hs; cases hs)
-    exact ⟨h.addr, h.hsa, h.ring, fun ho => by simp [sQ3] at ho, fun cur hc => by simp [sQ3] at hc; subst hc; decide,
+    exact ⟨h.addr, h.hsa, TokenRing.new_ok 3 (by decide), fun ho => by simp [sQ3] at ho, fun cur hc => by simp [sQ3] at hc; subst hc; decide,
       fun a ha => by simp [sQ3] at ha, fun a ha => by simp [sQ3] at ha; subst ha; exact ⟨rfl, by decide⟩, h.app,
       fun a d ha => by simp [sQ3] at ha, h.scripts, by simp [sQ3]⟩
   have hinv5 : Inv sQ5 [] := by
@@ -1187,7 +1189,7 @@ theorem hq1Q : HQ1 cfgR netQ 0 1 nsQ3 nsQ5 1000 1150 0 1150 := by
   have hce : cEnd cfgR (rqTx 0 3 5 1000) = 1132 := by rw [cEnd_rq]; decide
   have hpos : 0 < (rqTx 0 3 5 1000).bytes.length := by
     show 0 < (StationGap.statusRequestBytes 5 3).length; rw [StationGap.statusRequestBytes_length]; decide
-  refine ⟨?_, .inl rfl, rfl, ?_, rfl, by decide, by decide, by decide, by decide, ?_, rfl, ?_, by decide, rfl⟩
+  refine ⟨?_, .inl rfl, rfl, ?_, rfl, by decide, by decide, by decide, by decide, ?_, rfl, ?_, by decide, viewOne⟩
   · exact ⟨rfl, rfl, rfl, List.pairwise_singleton _ _,
       (fun o ho => by simp only [netQ, List.mem_singleton] at ho; subst ho; rfl),
       (fun o ho => by simp only [netQ, List.mem_singleton] at ho; subst ho; exact hpos),
@@ -1216,7 +1218,7 @@ example : RplRun cfgR 0 1 3 5 .masterNotReady 1630 netQ evsRp :=
 station 3) and registered the request at 1150 µs. -/
 def rdy5 : TokenRing := witnessK 3 3 (TokenRing.new 5)
 open PV.C13 in
-def sA3 : Station := { (Station.new pR3) with online := true, st := .awaitStatus 5, gap := .doPoll 5, lastBusActivity := some 1132 }
+def sA3 : Station := { (Station.new pR3) with online := true, st := .awaitStatus 5, gap := .doPoll 5, lastBusActivity := some 1132, ring := (TokenRing.new 3).claimToken }
 open PV.C13 in
 def sR5 : Station := { (Station.new pR5) with online := true, st := .listenToken (some 3) 0, lastBusActivity := some 1150, ring := rdy5 }
 def nsA3 : NetStation := { s := sA3, apps := [], online := true }
@@ -1227,7 +1229,7 @@ open PV.C13 in
 theorem hq1A : HQ1 cfgR netA 0 1 nsA3 nsR5 1000 1150 0 1150 := by
   have hinv3 : Inv sA3 [] := by
     have h := inv_new pR3 [] (by decide) (by decide) (by intro s hs; cases hs)
-    exact ⟨h.addr, h.hsa, h.ring, fun ho => by simp [sA3] at ho, fun cur hc => by simp [sA3] at hc; subst hc; decide,
+    exact ⟨h.addr, h.hsa, TokenRing.new_ok 3 (by decide), fun ho => by simp [sA3] at ho, fun cur hc => by simp [sA3] at hc; subst hc; decide,
       fun a ha => by simp [sA3] at ha; subst ha; exact ⟨rfl, by decide⟩, fun a ha => by simp [sA3] at ha, h.app,
       fun a d ha => by simp [sA3] at ha, h.scripts, by simp [sA3]⟩
   have hinv5 : Inv sR5 [] := by
@@ -1239,7 +1241,7 @@ theorem hq1A : HQ1 cfgR netA 0 1 nsA3 nsR5 1000 1150 0 1150 := by
   have hce : cEnd cfgR (rqTx 0 3 5 1000) = 1132 := by rw [cEnd_rq]; decide
   have hpos : 0 < (rqTx 0 3 5 1000).bytes.length := by
     show 0 < (StationGap.statusRequestBytes 5 3).length; rw [StationGap.statusRequestBytes_length]; decide
-  refine ⟨?_, .inr rfl, rfl, ?_, rfl, by decide, by decide, by decide, by decide, ?_, rfl, ?_, by decide, rfl⟩
+  refine ⟨?_, .inr rfl, rfl, ?_, rfl, by decide, by decide, by decide, by decide, ?_, rfl, ?_, by decide, viewOne⟩
   · exact ⟨rfl, rfl, rfl, List.pairwise_singleton _ _,
       (fun o ho => by simp only [netA, List.mem_singleton] at ho; subst ho; rfl),
       (fun o ho => by simp only [netA, List.mem_singleton] at ho; subst ho; exact hpos),
